@@ -54,11 +54,11 @@ Kick == /\ kicks < MaxKicks /\ (haskick \/ SameFd)
 
 \* ---- worker ------------------------------------------------------------------------------
 \* epoll_wait returns (no controller command: it happens by itself once the condition holds)
-\* While the ring is disabled but its descriptor still registered the worker spins (wake, skip, wait
+\* While the ring is disabled (or stopped) but its descriptor still registered the worker spins (wake, skip, wait
 \* again) until the daemon thread removes the registration: the model lets it spin once.
-Wake == /\ wpc = "wait" /\ reg /\ counter > 0 /\ (enabled \/ spins < 1)
+Wake == /\ wpc = "wait" /\ reg /\ counter > 0 /\ ((enabled /\ ready) \/ spins < 1)
         /\ wpc' = "woken"
-        /\ spins' = IF enabled THEN spins ELSE spins + 1
+        /\ spins' = IF enabled /\ ready THEN spins ELSE spins + 1
         /\ UNCHANGED <<ready, enabled, haskick, reg, counter, wEnabled, cpc, cop, next, kicks, quiet, owed, p1, p2, died, sched>>
 
 \* read_kick: a disabled ring is not processed and its notification stays pending; otherwise the
@@ -66,8 +66,11 @@ Wake == /\ wpc = "wait" /\ reg /\ counter > 0 /\ (enabled \/ spins < 1)
 \* eventfd (stale wake-up) is a spurious wake-up: nothing to process.
 \* (Before the repair of 96d0b5d the kick was consumed also when disabled -- a lost kick -- and the
 \*  empty read terminated the worker; TLC showed both on this model, the replay on the code too.)
+\* (A ring that is not started does not have its notification consumed either -- repair of the defect this model showed with
+\*  the stop/restart scenario and two kicks: a worker woken before GET_VRING_BASE read the counter of the re-installed descriptor
+\*  between set_kick and set_queue_ready, found the queue not ready and dropped what it had consumed.)
 WRead == /\ wpc = "woken"
-         /\ IF ~enabled
+         /\ IF ~enabled \/ ~ready
             THEN wEnabled' = FALSE /\ UNCHANGED counter
             ELSE IF haskick /\ counter = 0
                  THEN wEnabled' = FALSE /\ UNCHANGED counter
@@ -146,7 +149,7 @@ CReply == /\ cpc = "ctl"
 \* in such a state was woken by something the design does not account for (e.g. an epoll registration that outlived its
 \* descriptor): the replay then lets it run on instead of parking it until the schedule's next worker command, so that what it
 \* does with the wake-up (consume a kick without processing it ...) becomes part of the recorded behaviour.
-WIdle == wpc = "wait" /\ ~(reg /\ counter > 0 /\ (enabled \/ spins < 1))
+WIdle == wpc = "wait" /\ ~(reg /\ counter > 0 /\ ((enabled /\ ready) \/ spins < 1))
 Steps == Kick \/ Wake \/ WRead \/ WCheck \/ WDispatch \/ WLeave \/ Send \/ CReady \/ CCtl \/ CDropKick \/ CReply
 Next == Steps /\ wfree' = IF sched' # sched THEN Append(wfree, WIdle') ELSE wfree
 Spec == Init /\ [][Next]_vars
